@@ -3,5 +3,21 @@ claim("C17",
       "For every byte string of length <= 2 (quick) / <= 3 (thorough) the solver shows, on every path of the real Bquote/Bunquote (strconv.Quote, UnquoteChar, utf8 included), that unquote(quote(b)) == b and the quoted form has no ',' ':' or newline. Bounded, not a proof: longer strings are outside the claim.",
       "Trusts the gosym executor's Go semantics and the SMT solvers; strings longer than the bound are not covered.",
       "DESIGN.md 4/C17")
-for p in ["C01","C02","C03","C04","C05","C06","C07","C08","C09","C10","C11","C12","C13","C14","C15","C16","C18","C19","C20"]:
+claim("C16",
+      "The real cdb writer (Put/Close) and reader (find/FindNext/readNums/match) plus Dump/Make run symbolically on n <= 3 (quick) / 4 (thorough) records with symbolic key/value bytes; the hash is an oracle returning a fresh symbolic 32-bit value per distinct key, so the solver chooses table, slot and full-hash collisions and probe wrap-around. Every look-up returns exactly the written values of that key in insertion order, then EOF; dump+make reproduces the file bytes.",
+      "Hash function replaced by an oracle (equal content => equal hash) with the table number confined to a stated small set per shape; spooky.New(0,0).Sum32 == spooky.Hash32 is assumed; files beyond a few records / bufio 4096-byte boundary are outside.",
+      "DESIGN.md 4/C16")
+claim("C15",
+      "One step from an arbitrary valid pre-state (two distinct symbolic keys, value lists with symbolic lengths/bytes) through the real RDB.Add, Del, CreateBatch/Add/Del/ExecuteBatch, read back with the real Find/ForEach and raw: the store equals the map-of-lists model; failing Del/batch leave the store bytewise unchanged; a batch is one atomic write. One inductive step covers histories of any length within the size bound.",
+      "RocksDB replaced by an ordered key-value model implementing rdb.DBI with RocksDB's documented contract (Get/GetMulti/WriteBatch atomicity); backup/restore (C++ BackupEngine pass-through) is not applicable to this technique and not claimed.",
+      "DESIGN.md 4/C15")
+claim("C11",
+      "Real Wrs.Add/ARecord/AAAARecord/WeightedAnswer over m <= 3 (quick) / 5 (thorough) candidates with symbolic weights (0 and 2^32-1 included), families, TTLs, addresses, a symbolic random stream and arbitrary shuffle: at most MaxAnswers and exactly min(MaxAnswers, #positive-weight) records per family, no repetition, only declared candidates, weight 0 never served, served keys are the largest Efraimidis-Spirakis keys; the variate handed to Pow lies strictly in (0,1), is monotone in the draw, exponent = 1/weight (float64 semantics decided by cvc5's FP theory).",
+      "math.Pow replaced by its documented contract on the domain used; the statistical statement (frequencies proportional to weights) is outside this technique: only the functional reduction to E-S keys is decided. FindAnswer/AdditionalSection wiring is covered with the handler world (C01/C13) when built.",
+      "DESIGN.md 4/C11")
+claim("C19",
+      "Sliding window: the real cleaner() goroutine driven by a stub ticker and stub clock (arbitrary non-decreasing whole-second readings), k <= 3 adds and t <= 2 ticks (quick; 5/3 thorough) in solver-chosen order: after every tick the retained samples are exactly the non-expired added samples in order, and Stats.Get() exports their min/max/avg (0,0,0 when empty). The counter/query-log part is decided in the handler world when built.",
+      "time.Now/time.NewTicker substituted (clock in whole seconds); expiry observed at tick granularity; counters and query log clauses not yet covered in this session.",
+      "DESIGN.md 4/C19")
+for p in ["C01","C02","C03","C04","C05","C06","C07","C08","C09","C10","C12","C13","C14","C18","C20"]:
     na(p, "check not built yet in this session (work in progress; see DESIGN.md section 7 build order)")
